@@ -446,7 +446,11 @@ func (s *Shard) SearchPoints(searchRequest models.SearchRequest) ([]models.Searc
 					var ok bool
 					current, ok = current[s].(map[string]any)
 					if !ok {
-						return nil, fmt.Errorf("could not access nested property when selecting: %s", p)
+						// An earlier select path already put a non-map value
+						// here (e.g. select ["a", "a.b"]): this path cannot be
+						// nested under it. Skip it rather than failing the
+						// whole search.
+						break
 					}
 				}
 			}
